@@ -94,6 +94,7 @@ type config struct {
 	ops     []op
 	vals    bool // include values in the state key
 	maxDepth int
+	prefill int // the search starts from the table that holds the first prefill keys (inserted in order)
 }
 
 // state is a live implementation object with its model.
@@ -214,6 +215,18 @@ func newState(cfg *config, th *starlark.Thread) *state {
 			st.d = starlark.NewDict(0)
 		default:
 			st.d = starlark.NewDict(cfg.presize)
+		}
+	}
+	for _, k := range cfg.keys[:cfg.prefill] {
+		st.m.set(k.ID, 1)
+		var err error
+		if cfg.set {
+			err = st.s.Insert(k)
+		} else {
+			err = st.d.SetKey(k, val(1))
+		}
+		if err != nil {
+			panic(fmt.Sprintf("c12: prefill: %v", err))
 		}
 	}
 	return st
@@ -862,14 +875,32 @@ func symOps(keys []K, set bool) []op {
 		_, _, err := st.d.Delete(k)
 		return err
 	}
-	ops = append(ops, op{"insert-fresh", func(st *state) string {
-		for _, k := range keys {
-			if st.m.find(k.ID) < 0 {
-				return expectErr(setv(st, k, 1), false, "insert")
-			}
+	// one insert-fresh operation per hash class (keys of one class share their hash and are interchangeable)
+	var classes []uint32
+	for _, k := range keys {
+		known := false
+		for _, h := range classes {
+			known = known || h == k.H
 		}
-		return "" // universe exhausted: no-op
-	}})
+		if !known {
+			classes = append(classes, k.H)
+		}
+	}
+	for _, h := range classes {
+		h := h
+		name := "insert-fresh"
+		if len(classes) > 1 {
+			name = fmt.Sprintf("insert-fresh(hash %#x)", h)
+		}
+		ops = append(ops, op{name, func(st *state) string {
+			for _, k := range keys {
+				if k.H == h && st.m.find(k.ID) < 0 {
+					return expectErr(setv(st, k, 1), false, "insert")
+				}
+			}
+			return "" // class exhausted: no-op
+		}})
+	}
 	pos := func(st *state, which string) (K, bool) {
 		n := len(st.m.e)
 		if n == 0 {
@@ -941,6 +972,27 @@ func configs(tier string) []*config {
 	if thorough {
 		depthB = 24
 	}
+	// D/E: chains of two and three full buckets as the starting state (22 and 30 interchangeable keys)
+	var keysD, keysE []K
+	for i := 0; i < 30; i++ {
+		if i < 22 {
+			keysD = append(keysD, K{i, 0x50})
+		}
+		keysE = append(keysE, K{i, 0x50})
+	}
+	depthD, depthE := 7, 5
+	if thorough {
+		depthD, depthE = 10, 8
+	}
+	// G: two hash classes that share a bucket while the table has one or two buckets and part when it has four
+	var keysG []K
+	for i := 0; i < 20; i++ {
+		keysG = append(keysG, K{i, []uint32{0x50, 0x52}[i%2]})
+	}
+	depthG := 11
+	if thorough {
+		depthG = 15
+	}
 	cs := []*config{
 		{name: "A-dict", keys: keysA, ops: dictOpsFor(keysA, othersA), vals: thorough},
 		{name: "A-set", set: true, keys: keysA, ops: setOpsFor(keysA, othersA)},
@@ -948,6 +1000,10 @@ func configs(tier string) []*config {
 		{name: "B-set-sym", set: true, keys: keysB, sym: true, ops: symOps(keysB, true), maxDepth: depthB},
 		{name: "C-dict-presized16", keys: keysC, presize: 16, ops: dictOpsFor(keysC, othersC)},
 		{name: "C-set-presized16", set: true, keys: keysC, presize: 16, ops: setOpsFor(keysC, othersC)},
+		{name: "D-dict-sym-from-16-in-one-chain", keys: keysD, sym: true, prefill: 16, ops: symOps(keysD, false), maxDepth: depthD},
+		{name: "D-set-sym-from-16-in-one-chain", set: true, keys: keysD, sym: true, prefill: 16, ops: symOps(keysD, true), maxDepth: depthD},
+		{name: "E-dict-sym-from-24-in-one-chain", keys: keysE, sym: true, prefill: 24, ops: symOps(keysE, false), maxDepth: depthE},
+		{name: "G-dict-sym-two-hash-classes", keys: keysG, sym: true, ops: symOps(keysG, false), maxDepth: depthG},
 	}
 	return cs
 }
